@@ -744,6 +744,10 @@ def eval_exp_recurse(tree: lark.Tree) -> Any:
             unaryop = op.children[0]
             code += f'{unaryop.children[0]}({eval_exp_recurse(op.children[1])})'
             continue
+        elif op.data == 'parenexp':
+            inner = ' '.join(map(eval_exp_recurse, op.children))
+            code += f'({inner})'
+            continue
         elif op.data == 'usub':
             code += '-'
         elif op.data == 'pow':
